@@ -72,6 +72,10 @@ type Mint struct {
 	// (state checks, minting and the invoice subscription). Without it two concurrent
 	// requests could both see a quote as PAID and both get signatures for one payment.
 	mintQuoteMu *sync.Mutex
+	// proofsMu serializes the sequences that check the state of proofs and then
+	// change it (spent, pending) in swap and melt. These are separate db calls on
+	// separate tables, so two requests with the same proof could both pass the check.
+	proofsMu *sync.Mutex
 }
 
 func LoadMint(config Config) (*Mint, error) {
@@ -127,6 +131,7 @@ func LoadMint(config Config) (*Mint, error) {
 		cancel:     cancel,
 
 		mintQuoteMu: &sync.Mutex{},
+		proofsMu:    &sync.Mutex{},
 	}
 
 	// if no keysets stored, just create a new one
@@ -537,6 +542,10 @@ func (m *Mint) Swap(proofs cashu.Proofs, blindedMessages cashu.BlindedMessages) 
 		return nil, cashu.InsufficientProofsAmount
 	}
 
+	// hold until the proofs have been marked as spent
+	m.proofsMu.Lock()
+	defer m.proofsMu.Unlock()
+
 	if err := m.verifyProofs(proofs, Ys); err != nil {
 		return nil, err
 	}
@@ -716,12 +725,15 @@ func (m *Mint) GetMeltQuoteState(ctx context.Context, quoteId string) (storage.M
 			m.logInfof("payment %v succeded. setting melt quote '%v' to paid and invalidating proofs",
 				meltQuote.PaymentHash, meltQuote.Id)
 
+			m.proofsMu.Lock()
 			proofs, err := m.removePendingProofsForQuote(meltQuote.Id)
 			if err != nil {
+				m.proofsMu.Unlock()
 				errmsg := fmt.Sprintf("error removing pending proofs for quote: %v", err)
 				return storage.MeltQuote{}, cashu.BuildCashuError(errmsg, cashu.DBErrCode)
 			}
 			err = m.db.SaveProofs(proofs)
+			m.proofsMu.Unlock()
 			if err != nil {
 				errmsg := fmt.Sprintf("error invalidating proofs. Could not save proofs to db: %v", err)
 				return storage.MeltQuote{}, cashu.BuildCashuError(errmsg, cashu.DBErrCode)
@@ -804,6 +816,12 @@ func (m *Mint) MeltTokens(ctx context.Context, meltTokensRequest nut05.PostMeltB
 		Ys[i] = Yhex
 	}
 
+	// checking the state of the quote and the proofs and setting them as pending
+	// needs to be done without other requests doing the same in between
+	m.proofsMu.Lock()
+	unlockProofs := sync.OnceFunc(m.proofsMu.Unlock)
+	defer unlockProofs()
+
 	meltQuote, err := m.db.GetMeltQuote(meltTokensRequest.Quote)
 	if err != nil {
 		return storage.MeltQuote{}, cashu.QuoteNotExistErr
@@ -843,6 +861,7 @@ func (m *Mint) MeltTokens(ctx context.Context, meltTokensRequest nut05.PostMeltB
 		errmsg := fmt.Sprintf("error updating melt quote state: %v", err)
 		return storage.MeltQuote{}, cashu.BuildCashuError(errmsg, cashu.DBErrCode)
 	}
+	unlockProofs()
 
 	// before asking backend to send payment, check if quotes can be settled
 	// internally (i.e mint and melt quotes exist with the same invoice)
@@ -853,17 +872,10 @@ func (m *Mint) MeltTokens(ctx context.Context, meltTokensRequest nut05.PostMeltB
 		if err != nil {
 			return storage.MeltQuote{}, err
 		}
-		err := m.db.RemovePendingProofs(Ys)
+		err = m.settleProofs(Ys, proofs)
 		if err != nil {
-			errmsg := fmt.Sprintf("error removing pending proofs: %v", err)
-			return storage.MeltQuote{}, cashu.BuildCashuError(errmsg, cashu.DBErrCode)
+			return storage.MeltQuote{}, err
 		}
-		err = m.db.SaveProofs(proofs)
-		if err != nil {
-			errmsg := fmt.Sprintf("error invalidating proofs. Could not save proofs to db: %v", err)
-			return storage.MeltQuote{}, cashu.BuildCashuError(errmsg, cashu.DBErrCode)
-		}
-		m.publishProofsStateChanges(proofs, nut07.Spent)
 	} else {
 		var sendPaymentResponse lightning.PaymentStatus
 		// if melt is MPP, pay partial amount. If not, send full payment
@@ -1012,6 +1024,9 @@ func (m *Mint) settleQuotesInternally(
 // settleProofs will remove the proofs from the pending table
 // and mark them as spent by adding them to the used proofs table
 func (m *Mint) settleProofs(Ys []string, proofs cashu.Proofs) error {
+	m.proofsMu.Lock()
+	defer m.proofsMu.Unlock()
+
 	err := m.db.RemovePendingProofs(Ys)
 	if err != nil {
 		errmsg := fmt.Sprintf("error removing pending proofs: %v", err)
